@@ -52,7 +52,8 @@ def dump_mir(repo, crate, work):
 
 def mir_function(mir, name):
     """-> (params [(local, ty)], ret_ty, {bb: [lines]}) of `fn <name>(`"""
-    m = re.search(r"^fn %s\((.*?)\) -> ([^{]+) \{\n(.*?)^\}\n" % re.escape(name), mir, re.S | re.M)
+    pat = name[3:] if name.startswith("re:") else re.escape(name)
+    m = re.search(r"^fn %s\((.*?)\) -> ([^{]+) \{\n(.*?)^\}\n" % pat, mir, re.S | re.M)
     if not m:
         raise Unsupported("function %s not found in MIR" % name)
     params = []
@@ -236,16 +237,23 @@ class Exec:
             return tuple(self.operand(x) for x in m.group(1).split(", "))
         return self.operand(rhs)
 
-    def run(self, mir, name, args):
+    def run(self, mir, name, args, entry=None, bind=None, result=None):
+        """entry/bind/result: execute only the straight-line arithmetic kernel of a larger function:
+        start at block `entry` with the locals in `bind` pre-set, stop as soon as `result` is assigned
+        and the enclosing block ends (the surrounding control flow is outside this engine)."""
         params, ret, blocks, decls = mir_function(mir, name)
         self.types = dict(decls)
         for (l, ty), a in zip(params, args):
             self.types[l] = ty
             self.env[l] = a
+        for l, a in (bind or {}).items():
+            self.env[l] = a
         self.types["_0"] = ret
-        bb = "bb0"
+        bb = entry or "bb0"
         seen = set()
         while True:
+            if result is not None and result in self.env:
+                return self.env[result]
             if bb in seen:
                 raise Unsupported("loop in %s (%s revisited)" % (name, bb))
             seen.add(bb)
@@ -277,6 +285,8 @@ class Exec:
                     break
                 m = re.match(r"^(_\d+) = (.+)$", line)
                 if m and "->" not in line:
+                    if result is not None and result in self.env:
+                        return self.env[result]  # kernel finished; what follows wraps the value
                     self.env[m.group(1)] = self.name(self.rvalue(m.group(1), m.group(2)))
                     continue
                 raise Unsupported("statement in %s: %s" % (name, line))
@@ -343,7 +353,15 @@ def native_program(repo, q, body):
         text = extract_fn_source(os.path.join(repo, crate_rel), fn_name)
         text = re.sub(r"^(pub(\([^)]*\))? )?fn %s\b" % re.escape(fn_name), "fn %s" % alias, text)
         parts.append("// from %s\n%s" % (crate_rel, text))
-    parts.append(q.get("native_prelude", ""))
+    prelude = q.get("native_prelude", "")
+    if "native_expr" in q:
+        rel, pat = q["native_expr"]
+        m = re.search(pat, open(os.path.join(repo, rel)).read())
+        if not m:
+            raise RuntimeError("expression pattern not found in %s (source changed shape)" % rel)
+        expr = m.group(1).replace("self.position()", "position")
+        prelude = prelude.replace("/*EXTRACT*/", expr)
+    parts.append(prelude)
     parts.append("fn main() {\n%s\n}" % body)
     return "\n\n".join(parts)
 
@@ -411,10 +429,12 @@ def build_script(q, mir, fixed=None):
     ex_all = []
     for step in q["steps"]:
         # step: (result name, MIR fn, [arg names or ints])
-        res, fn, args = step
+        res, fn, args = step[:3]
+        opts = step[3] if len(step) > 3 else {}
         ex = Exec(ctx, res)
         a = [vals[x] if isinstance(x, str) else x for x in args]
-        vals[res] = ex.run(mir, fn, a)
+        bind = {l: (vals[x] if isinstance(x, str) else x) for l, x in opts.get("bind", {}).items()}
+        vals[res] = ex.run(mir, fn, a, entry=opts.get("entry"), bind=bind, result=opts.get("result"))
         ex_all.append(ex)
         for assumed, cond, msg in ex.obligations:
             goals.append(("no-panic " + msg, cond, [a for a in assumed if a != "true"]))
